@@ -36,6 +36,9 @@ type SharedCase struct {
 	Pauses     []Pause // consumer pauses (after it has taken AfterN lines)
 	Filter     bool
 	Unselected int // every Unselected-th line does not match the filter (0 = all match)
+	// BigLineKB > 0: every line is that long and the filter has to scan all of it, so that a reader spends
+	// milliseconds between looking at the queue and putting its line there
+	BigLineKB int
 }
 
 func genShared(t *rapid.T) SharedCase {
@@ -68,6 +71,22 @@ func genShared(t *rapid.T) SharedCase {
 		}
 	}
 	c.PerLineUs = rapid.SampledFrom([]int{0, 0, 200, 2000, 20000}).Draw(t, "per-line-us")
+	if rapid.IntRange(0, 3).Draw(t, "big-lines") == 0 {
+		c.BigLineKB = rapid.SampledFrom([]int{100, 400, 900}).Draw(t, "big-kb")
+		c.Queue = rapid.SampledFrom([]int{1, 1, 2}).Draw(t, "big-queue")
+		c.Filter, c.Unselected = true, 0
+		c.Rounds = nil
+		nr := rapid.IntRange(4, 10).Draw(t, "big-rounds")
+		for i := 0; i < nr; i++ {
+			var r Round
+			for f := 0; f < c.Files; f++ {
+				r.Counts = append(r.Counts, 1)
+			}
+			r.DelayMs = 250
+			c.Rounds = append(c.Rounds, r)
+		}
+		c.PerLineUs = 20000
+	}
 	np := rapid.IntRange(0, 2).Draw(t, "npauses")
 	for i := 0; i < np; i++ {
 		c.Pauses = append(c.Pauses, Pause{AfterN: rapid.SampledFrom([]int{0, 1, 5, 50, 101}).Draw(t, "after"), Ms: rapid.SampledFrom([]int{30, 150, 400}).Draw(t, "ms")})
@@ -79,12 +98,14 @@ func genShared(t *rapid.T) SharedCase {
 	return c
 }
 
+var sharedPad string // set per case: padding that makes every line BigLineKB long
+
 func sharedLine(f, n int, match bool) string {
 	tag := "m"
 	if !match {
 		tag = "u"
 	}
-	return fmt.Sprintf("%s%d-%d-shared queue payload %s", tag, f, n, strings.Repeat("y", (n*7+f)%30))
+	return fmt.Sprintf("%s%d-%d-shared queue payload %s%s end", tag, f, n, strings.Repeat("y", (n*7+f)%30), sharedPad)
 }
 
 func evalShared(c SharedCase) lib.Outcome {
@@ -99,8 +120,15 @@ func evalShared(c SharedCase) lib.Outcome {
 		defer os.Remove(paths[f])
 	}
 	re := regex.NewNoop()
+	sharedPad = ""
+	if c.BigLineKB > 0 {
+		sharedPad = strings.Repeat("a", c.BigLineKB*1024)
+	}
 	if c.Filter {
 		re, _ = regex.New("^m", regex.Default)
+		if c.BigLineKB > 0 {
+			re, _ = regex.New("^m.*end$", regex.Default) // has to look at the whole line
+		}
 	}
 	lines := make(chan *line.Line, c.Queue)
 	serverMessages := make(chan string, 1000)
@@ -272,6 +300,9 @@ func evalShared(c SharedCase) lib.Outcome {
 	}
 	// ---- oracle
 	o.Classes = []string{fmt.Sprintf("files=%d", c.Files), fmt.Sprintf("queue=%d", c.Queue)}
+	if c.BigLineKB > 0 {
+		o.Classes = append(o.Classes, "long-lines-with-scanning-filter")
+	}
 	if c.Filter {
 		o.Classes = append(o.Classes, "filter")
 	}
